@@ -156,3 +156,28 @@ Lemma agent_kinds :
   (forall ms, stored_transcript tool_claude [key_transcript_path] ms = []) /\
   (forall ms, stored_transcript tool_claude [] ms = ms).
 Proof. split; [|split]; intros; reflexivity. Qed.
+
+(* ---------- a real sequence meeting the side condition of no_text_run ---------- *)
+
+Definition env0 : env := mkEnv false false.
+
+Definition wit_steps : list step :=
+  match find w_filtered note_writers, find source_is_notes note_writers with
+  | Some a, Some b => [mkStep a MDefault env0 wit_src; mkStep b MLocal env0 wit_src; mkStep a MLocal (mkEnv true true) wit_src]
+  | _, _ => []
+  end.
+
+Lemma seq_witness :
+  exists steps, length steps = 3%nat /\
+    Forall (fun st => st_mode st <> MNotes /\ In (st_writer st) note_writers
+                      /\ safe_writer (st_writer st) = true) steps.
+Proof.
+  exists wit_steps. unfold wit_steps.
+  destruct (find w_filtered note_writers) as [a|] eqn:Ea; [|vm_compute in Ea; discriminate].
+  destruct (find source_is_notes note_writers) as [b|] eqn:Eb; [|vm_compute in Eb; discriminate].
+  apply find_some in Ea as (Ia & Fa). apply find_some in Eb as (Ib & Fb).
+  split; [reflexivity|].
+  apply Forall_cons; [|apply Forall_cons; [|apply Forall_cons; [|apply Forall_nil]]];
+    (split; [simpl; discriminate|split; [simpl; assumption|
+      simpl; unfold safe_writer; rewrite ?Fa, ?Fb, ?orb_true_r; reflexivity]]).
+Qed.
